@@ -37,6 +37,8 @@ type LockerIn struct {
 	Cancels  []LockCancel `json:"cancels,omitempty"`
 	SitesOff []string     `json:"sitesOff,omitempty"`
 	Choices  []int        `json:"choices,omitempty"`
+	// FineSites: statement-level scheduling points enabled in this run (fine-grained mode only).
+	FineSites []string `json:"fineSites,omitempty"`
 }
 
 type lockRec struct {
@@ -50,6 +52,7 @@ type lockRec struct {
 	returned  bool
 	err       error
 	holding   bool // Lock returned successfully and unlock has not been called yet
+	unlocking bool // unlock has been called and has not returned yet
 	cancelled bool
 	cancel    context.CancelFunc
 	yields    int
@@ -122,6 +125,17 @@ func (l *lockerSim) root() {
 		}
 	}
 	verifhook.Dead = func(ctx context.Context) bool { return gen.dead.Load() }
+	fineOn := map[string]bool{}
+	for _, f := range l.in.FineSites {
+		fineOn[f] = true
+	}
+	installFineHooks(l.sched, fineOn, func(k string) {
+		l.sched.mu.Lock()
+		l.counter[k]++
+		l.sched.mu.Unlock()
+	})
+	defer uninstallFineHooks()
+	fineAbandoned := false
 	var tasks []*Task
 	for ti, reqs := range l.in.Tasks {
 		ti, reqs := ti, reqs
@@ -149,6 +163,11 @@ func (l *lockerSim) root() {
 		quiesce()
 		l.sched.step++
 		if l.sched.step > l.sched.maxSteps {
+			if len(l.in.FineSites) > 0 {
+				l.counter["fine.step-cap"]++
+				fineAbandoned = true
+				break
+			}
 			l.harness = "step cap exceeded"
 			break
 		}
@@ -237,7 +256,7 @@ func (l *lockerSim) root() {
 		p.counted = false
 		l.sched.release(p)
 	}
-	if len(l.viols) == 0 && l.harness == "" {
+	if len(l.viols) == 0 && l.harness == "" && !fineAbandoned {
 		l.probe(base, gen, locker)
 	}
 	// end: free whatever is left
@@ -311,8 +330,10 @@ func (l *lockerSim) doRequest(ctx context.Context, t *Task, locker *command.Defa
 			}
 		}
 		rec.holding = false
+		rec.unlocking = true
 		l.sched.Logf("  %s unlock", rec.name)
 		unlock(rctx)
+		rec.unlocking = false
 		if t.Gen.dead.Load() {
 			return
 		}
@@ -404,17 +425,18 @@ func (l *lockerSim) checkNoNeedlessWait(ps []*Task, tasks []*Task) {
 		}
 	}
 	for _, r := range l.recs {
-		if r.holding {
+		if r.holding || r.unlocking {
 			add(r)
 		}
 	}
 	for _, tk := range tasks {
 		r := l.cur[tk]
-		if r == nil {
+		if r == nil || !r.invoked || r.returned {
 			continue
 		}
-		switch parkedAt[tk] {
-		case "lock.granted", "lock.cancelled", "lock.release":
+		// inside Lock and parked somewhere (granted and not yet returned, cancelled and possibly
+		// granted meanwhile, or -- in fine-grained mode -- anywhere on its way): it may hold locks
+		if _, isParked := parkedAt[tk]; isParked {
 			add(r)
 		}
 	}
@@ -548,6 +570,9 @@ func GenLockerIn(t *rapid.T) *LockerIn {
 			in.Cancels = append(in.Cancels, LockCancel{Step: rapid.IntRange(1, 60).Draw(t, "cstep"), Who: rapid.IntRange(0, 3).Draw(t, "cwho")})
 		}
 		sort.Slice(in.Cancels, func(i, j int) bool { return in.Cancels[i].Step < in.Cancels[j].Step })
+	}
+	if len(fineSiteList) > 0 {
+		in.FineSites = genFineSites(t, "command/lock.go")
 	}
 	nOff := rapid.IntRange(0, 2).Draw(t, "nOff")
 	for i := 0; i < nOff; i++ {
